@@ -15,7 +15,8 @@ Dependency suites (rules/deps.py; each obligation is a necessary condition of th
 kernel-build (C07.T-conn, C07.T-ite0, C07.R-ite, S.F-memo ite_cache, S.R-node, S.R-new, S.W-store, C06.W-ctor), kernel-restrict
 (C07.R-restrict, S.F-memo restrict_cache) and translation (C09.A-wire, C09.A-term, C09.F-order, C09.A-name, C01.A-hybrid): an answer
 is computed on diagrams built by these functions, on every back-end.  cli-plumbing (C08.F-input, C10.P-cli, C10.F-print): what every answer
-printed by adf-bdd passes through, whatever the semantics."""
+printed by adf-bdd passes through, whatever the semantics.
+C01.F-io also decides that the biodivine loop restricts by exactly var_list(current interpretation), a list that is never mutated within the round."""
 NOT_DECIDED = ("That the result equals the least fixpoint as a function of the ADF additionally needs the kernel obligations (C06/C07) and an "
                "induction over rounds argued on paper; equality across variable orders is not decided.")
 TECHNIQUE = "static analysis: finite-domain closure tables, loop-cut path summaries with an affine progress counter, provenance of loop inputs/outputs"
